@@ -3,7 +3,7 @@ From Coq Require Import List Bool ZArith Lia.
 Require Export LE Varint C10_Model.
 Require Export C10_Monitor.
 Require Import C10_Codec C10_Proofs C10_Stream.
-Require Export C10_Large.
+Require Export C10_Large C10_Reuse.
 Import ListNotations.
 Open Scope Z_scope.
 
@@ -21,6 +21,8 @@ Open Scope Z_scope.
             NewReadableBufferX(concat chunks); what the source / the buffer still hold afterwards *)
 (* CLarge   like CStream for values of 64 KiB and more: the source bytes are segments (literal, or n bytes of the generator of
             C10_Large.v), the chunks are given by their sizes, and every observed byte string is given by its digest *)
+(* CReuse   ONE BufferX used for several messages with Reset (or reading to empty) between them; payloads of up to a few
+            hundred KiB are given by generator parameters (UGen / UStr) and every observed byte string by its digest *)
 Inductive case :=
   | CHist (init : list Z) (ops : list op) (obs : list outcome) (final : list Z)
   | CHold (init : list Z) (ops : list op) (obs : list outcome) (final : list Z) (now : list outcome)
@@ -30,7 +32,8 @@ Inductive case :=
   | CStream (chunks : list (list Z)) (eofl : bool) (ops : list op)
             (obs_r : list outcome) (rest_r : list Z) (obs_b : list outcome) (rest_b : list Z)
   | CLarge (segs : list seg) (sizes : list Z) (eofl : bool) (ops : list op)
-           (obs_r : list dout) (rest_r : dout) (obs_b : list dout) (rest_b : dout).
+           (obs_r : list dout) (rest_r : dout) (obs_b : list dout) (rest_b : dout)
+  | CReuse (uops : list uop) (obs : list dout) (final : dout).
 
 (* ---------------- accept: the implementation did exactly what the model does ---------------- *)
 Definition case_accept (c : case) : bool :=
@@ -57,6 +60,8 @@ Definition case_accept (c : case) : bool :=
       && (let '(o, s) := rrun (split_sizes sizes data, eofl) ops in
           douts_eqb (map dig o) obs_r && dout_eqb (dig (OBytes (src_bytes s))) rest_r)
       && (let '(o, f) := brun data ops in douts_eqb (map dig o) obs_b && dout_eqb (dig (OBytes f)) rest_b)
+  | CReuse uops obs final =>
+      let '(o, f) := brun [] (map expand_uop uops) in douts_eqb (map dig o) obs && dout_eqb (dig (OBytes f)) final
   end.
 
 (* ---------------- holds: the clauses of the property on the observed behaviour ---------------- *)
@@ -69,12 +74,13 @@ Definition case_holds (c : case) : bool :=
   | CReWrite b0 o out b1 => rewrite_ok b0 o out b1
   | CStream chunks eofl ops obs_r rest_r obs_b rest_b => stream_ok obs_r rest_r obs_b rest_b
   | CLarge segs sizes eofl ops obs_r rest_r obs_b rest_b => large_ok obs_r rest_r obs_b rest_b
+  | CReuse uops obs final => reuse_ok (map expand_uop uops) obs
   end.
 
 Theorem case_sound : forall c, case_accept c = true -> case_holds c = true.
 Proof.
   intros [init ops obs final | init ops obs final now | ws obs | ws total cut obs | b0 o out b1 | chunks eofl ops obs_r rest_r obs_b rest_b
-          | segs sizes eofl ops obs_r rest_r obs_b rest_b];
+          | segs sizes eofl ops obs_r rest_r obs_b rest_b | uops obs final];
     cbn [case_accept case_holds]; intros H.
   - destruct (brun init ops) as [o f] eqn:E. apply andb_prop in H as [H1 _]. apply outs_eqb_eq in H1. rewrite <- H1.
     replace o with (fst (brun init ops)) by now rewrite E. apply hist_sound.
@@ -97,4 +103,6 @@ Proof.
     destruct (rrun (split_sizes sizes (expand segs), eofl) ops) as [o s]. destruct (brun (expand segs) ops) as [o2 f].
     apply andb_prop in Hr as [Hr1 Hr2]. apply andb_prop in Hb as [Hb1 Hb2].
     apply douts_eqb_eq in Hr1, Hb1. apply dout_eqb_eq in Hr2, Hb2. rewrite <- Hr1, <- Hr2, <- Hb1, <- Hb2. exact L.
+  - pose proof (reuse_sound (map expand_uop uops)) as L. destruct (brun [] (map expand_uop uops)) as [o f].
+    apply andb_prop in H as [H1 _]. apply douts_eqb_eq in H1. rewrite <- H1. exact L.
 Qed.
